@@ -179,4 +179,13 @@ CLAIMS['C14'] = {
     'note': _NOTE,
 }
 
+CLAIMS['C16'] = {
+    'text': 'collect()/first(): shape and order rules (in-order spawn, regular vs volatile '
+            'children, results awaited in argument order after the scope, count check before '
+            'the scope, one FIFO queue sliced by count, yield inside the scope), plus the '
+            'path rule that closing first() at its yield runs Scope.__aexit__(GeneratorExit) '
+            'without suspending, and must-yield. Result times are not decided.',
+    'note': _NOTE,
+}
+
 NOT_APPLICABLE = {}
